@@ -259,10 +259,23 @@ struct CDlistWorld
             dlist_init(heads[l].get());
             return true;
         }
+        case 10: // whole-list splice: dlist_insert_instead(&new_head, &old_head), as igris::series' move does.
+        {        // The new head must be unused (empty); the old one may hold nodes or be empty.
+            int dst = t % nl, src = a % nl;
+            if (dst == src || !model[dst].empty())
+                return false;
+            c.log("splice_heads(L%d<-L%d)[%zu] ", dst, src, model[src].size());
+            if (model[src].empty())
+                c.label("splice_empty_src");
+            dlist_insert_instead(heads[dst].get(), heads[src].get());
+            model[dst] = model[src];
+            model[src].clear();
+            return true;
+        }
         }
         return false;
     }
-    static const int kOps = 10;
+    static const int kOps = 11;
 
     void check()
     {
@@ -730,9 +743,9 @@ void t_c_dlist(Src &s, Case &c) { run_history<CDlistWorldF>(s, c, false, "c_dlis
 void t_cxx_dlist(Src &s, Case &c) { run_history<CxxDlistWorld>(s, c, false, "cxx_dlist"); }
 void t_c_dlist_enum(Src &s, Case &c) { run_history<CDlistWorldF>(s, c, true, "c_dlist"); }
 void t_cxx_dlist_enum(Src &s, Case &c) { run_history<CxxDlistWorld>(s, c, true, "cxx_dlist"); }
-unsigned __int128 dl_enum_size(int tier)
+template <int OPS> unsigned __int128 dl_enum_size(int tier)
 {
-    unsigned __int128 per = 10 * 3 * 5, t = 1;
+    unsigned __int128 per = OPS * 3 * 5, t = 1;
     for (int i = 0; i < (tier ? 4 : 3); i++)
         t *= per;
     return t;
@@ -1012,6 +1025,6 @@ VP_TARGET("hlist", t_hlist,
           "hlist: hlist_add_next at the head / after a node, hlist_del of first/middle/last/unhashed nodes; hlist_for_each and "
           "hlist_for_each_entry (member at a non-zero offset) against the reference, pprev back-pointers after every op");
 VP_TARGET("c_dlist_enum", t_c_dlist_enum, "exhaustive: every history of 3 (quick) / 4 (thorough) operations x 3 nodes x 5 targets over 2 lists (C dlist)",
-          dl_enum_size);
+          dl_enum_size<11>);
 VP_TARGET("cxx_dlist_enum", t_cxx_dlist_enum, "exhaustive: every history of 3 (quick) / 4 (thorough) operations x 3 nodes x 5 targets over 2 lists (igris::dlist)",
-          dl_enum_size);
+          dl_enum_size<10>);
